@@ -30,6 +30,19 @@ translated statement by statement in continuation-passing style into a Lean term
   * `match p { PtrTrue | PtrFalse => …, Reg(n) | Compl(n) if g => …, … }` on a pointer becomes a
     Lean `match` on `Bdd.Ptr` (`.tru`, `.fls`, `.node c v lo hi`); arms are tried in source order,
     guards become `if`; inside the node case `p.low_raw()` is `lo`, `p.is_neg()` is `c`, …;
+  * closures: `[a, b].map(|x| …)` on an array literal is unrolled in order (the closure may use and
+    change the threaded state; a `return` inside leaves the closure only); `for x in [a, b]` is unrolled;
+    closures under iterator / Option adaptors must be free of effects and become Lean `fun`s:
+    iter().{map, filter, filter_map, find, any, all, position, fold, rev, take, skip, enumerate, zip,
+    chain, count, collect} ↦ List.{map, filter, filterMap, find?, any, all, findIdx?, foldl, reverse,
+    take, drop, zipIdx (swapped), zip, ++, length, id}; Option::{map, and_then, map_or, unwrap_or,
+    is_some, is_none} ↦ Option.{map, bind, elim, getD, isSome, isNone} (decided statically when the
+    constructor is known); private helper fns of the same file are inlined at the call site;
+  * ELABORATION GUARD: when the generated text differs from the file on disk it is elaborated once
+    (`lake env lean` on a candidate copy); every generated definition with an error falls back to its
+    alias with status `UNTRANSLATED … the translation does not elaborate` (repeated until clean), so an
+    ill-typed translation never breaks the build ("elaborates but differs" stays a tie failure);
+    GEN_DNNF_NO_GUARD=1 switches the guard off;
   * recursion: `cond_helper` must recurse on `low_raw()/high_raw()` of the matched pointer
     (structural, as the model); any other recursion argument makes the definition an opaque
     `partial def`, so the tie fails.  `topdown_h` recurses with fuel (`fuel = num_vars - level`,
@@ -48,9 +61,14 @@ TRUSTED MAPPING TABLE (Rust → Lean); everything not listed is outside the gram
               low ↦ negIf c lo, high ↦ negIf c hi, node.var/low/high ↦ v/lo/hi;
               p.var_safe() ↦ TieDnnfAux.varSafe p; a == b on pointers ↦ a = b (C02: the unique table
               makes pointer identity structural equality)
-  scratch     p.scratch::<T>() ↦ none and p.clear_scratch() ↦ no-op, ONLY IF the function contains
-              no `set_scratch` (the model's reading: the memo is never written); otherwise the
-              function is UNTRANSLATED
+  scratch     if NO translated function of the file calls `set_scratch` (the model's reading: the memo
+              is never written): p.scratch::<T>() ↦ none, p.clear_scratch() ↦ no-op.  Otherwise the
+              memo is explicit: `ScratchMemo = List (Ptr × Ptr)` keyed by the regular pointer to the
+              node, threaded like the store through every function that reads/writes it (extra
+              parameter and result component; the caller that only clears it starts with `[]`):
+              scratch() ↦ scratchGet memo key, set_scratch(v) ↦ (key, v) :: memo, clear_scratch() ↦
+              scratchClear; std::mem::transmute(e) ↦ e.  (Such a definition no longer has the type of
+              the memo-free model definition, so the tie fails.)
   literals    l.polarity() ↦ l.pol; l.label() ↦ l.var; Literal::new(v, b) ↦ Lit.mk v b
   store       self.get_or_insert(BddNode::new(v, l, h)) ↦ NS.getOrInsert t v l h (threads t);
               self.order().var_at_level(i) ↦ varAt i; self.order().lt(a, b) ↦ lvl a < lvl b
@@ -135,6 +153,11 @@ class Val:
         return self.prop if self.prop is not None else self.lean
 
     def like(self, lean):
+        if self.kind == "tuple" and self.parts:
+            x = par(lean)
+            n = len(self.parts)
+            projs = [x + "." + ".".join(["2"] * i + (["1"] if i < n - 1 else [])) for i in range(n)]
+            return Val(lean, "tuple", self.ty, parts=[p_.like(pr) for p_, pr in zip(self.parts, projs)])
         return Val(lean, self.kind, self.ty, inner=self.inner)
 
 
@@ -224,6 +247,8 @@ class FnDesc:
         self.parsed = None
         self.params = None       # [(rust name, Val template, byref)]
         self.uses_store = False
+        self.uses_memo = False   # threads the scratch memo as a parameter
+        self.memo_entry = False  # starts with an empty scratch memo
 
 
 GHOST_BINDERS = {
@@ -345,6 +370,14 @@ def bind_pattern(pat, val, env, k_env):
                 return k_env(env)
             return bind_pattern(pat[1][i], val.parts[i], env, lambda e2: go(i + 1, e2))
         return go(0, env)
+    if pat[0] == "pslice" and val.kind == "array" and val.parts and len(val.parts) == len(pat[1]):
+        def go2(i, env):
+            if i == len(pat[1]):
+                return k_env(env)
+            return bind_pattern(pat[1][i], val.parts[i], env, lambda e2: go2(i + 1, e2))
+        return go2(0, env)
+    if pat[0] == "pref":
+        return bind_pattern(pat[1], val, env, k_env)
     raise Untranslatable("pattern in let: %r" % (pat,))
 
 
@@ -369,9 +402,15 @@ def tr_path(segs, env):
             return mk("ptr", PTR_CONSTS[n])
         if n == "None":
             return Val("none", "opt", opt=("none",))
+        if n in ("Reg", "Compl", "Some"):
+            return Val("<fn %s>" % n, "fnpath", fn=segs)
         raise Untranslatable("unknown name `%s`" % n)
     if segs[-1] in PTR_CONSTS and segs[-2] == "BddPtr":
         return mk("ptr", PTR_CONSTS[segs[-1]])
+    if segs[-1] in ("Reg", "Compl") and segs[-2] == "BddPtr":
+        return Val("<fn %s>" % segs[-1], "fnpath", fn=segs)
+    if segs[0] == "Self" and len(segs) == 2:
+        return Val("<fn %s>" % segs[-1], "fnpath", fn=segs)
     raise Untranslatable("path `%s`" % "::".join(segs))
 
 
@@ -409,7 +448,7 @@ def tr_expr(e, env, k, hint=None):
     if t == "tuple":
         if not e[1]:
             return k(UNIT, env)
-        return tr_args(e[1], env, lambda vs, e2: k(Val("(" + ", ".join(v.lean for v in vs) + ")", "tuple", parts=vs), e2))
+        return tr_args(e[1], env, lambda vs, e2: k(tuple_val(vs), e2))
     if t == "block":
         return tr_block(e, env, lambda v, e2: k(v, scope_out(env, e2)), hint)
     if t == "return":
@@ -434,6 +473,8 @@ def tr_expr(e, env, k, hint=None):
         return tr_field(e, env, k)
     if t == "closure":
         return k(Val("<closure>", "closure", fn=(e[1], e[2], env)), env)
+    if t == "array":
+        return tr_args(e[1], env, lambda vs, e2: k(Val("[" + ", ".join(v.lean for v in vs) + "]", "array", parts=vs), e2))
     if t == "macro":
         if e[1] in ("debug_assert", "assert", "debug_assert_eq"):
             return k(UNIT, env)
@@ -441,6 +482,15 @@ def tr_expr(e, env, k, hint=None):
             return k(Val("default"), env)    # unreachable under the method's precondition
         raise Untranslatable("macro %s!" % e[1])
     raise Untranslatable("expression form `%s`" % t)
+
+
+def tuple_val(vs, lean=None):
+    ty = " × ".join(par_ty(v.ty) for v in vs) if all(v.ty for v in vs) else None
+    return Val(lean or "(" + ", ".join(v.lean for v in vs) + ")", "tuple", ty, parts=vs)
+
+
+def par_ty(t):
+    return t if re.match(r"^[A-Za-z_.]+$", t) else "(" + t + ")"
 
 
 def scope_out(outer, inner):
@@ -543,7 +593,7 @@ def merge_vals(vals, lean):
     return r
 
 
-def branching(assemble, branch_fns, env, k, dup, hint=None):
+def branching(assemble, branch_fns, env, k, dup, hint=None, inline=False):
     """branch_fns: [f(env, k) -> text]; assemble([texts]) -> text of the whole construct"""
     ctx = env.ctx
     if dup:
@@ -561,7 +611,7 @@ def branching(assemble, branch_fns, env, k, dup, hint=None):
             return k(UNIT, env)
         text = assemble([f(env.copy(), lambda v, e2: v.lean) for f in branch_fns])
         rv = merge_vals(vals, text)
-        if "\n" not in text:
+        if "\n" not in text or inline:
             return k(rv, env)
         name = ctx.fresh(hint or "r")
         return bind_let([name], text, k(rv.like(name), env))
@@ -858,6 +908,88 @@ def restore_var(outer, inner, name):
     return e
 
 
+# ---- closures ---------------------------------------------------------------------------------
+
+def apply_fn(fval, args, env, k, hint=None, inline=False):
+    """apply a closure value / a constructor path to translated arguments (with a join: a `return`
+    inside a closure leaves the closure only)"""
+    ctx = env.ctx
+    if fval.kind == "fnpath":
+        e2 = env.copy()
+        names = []
+        for i, a in enumerate(args):
+            e2.vars["__arg%d" % i] = a
+            names.append(("path", ["__arg%d" % i]))
+        return tr_call(("call", ("path", fval.fn), names), e2, lambda v, e3: k(v, scope_out(env, e3)), hint)
+    if fval.kind != "closure":
+        raise Untranslatable("application of a %s" % fval.kind)
+    params, body, cenv = fval.fn
+    if len(params) != len(args):
+        raise Untranslatable("closure arity")
+
+    def f(en, kk):
+        en = en.copy()
+        en.declared = set()
+        for n, v in cenv.vars.items():
+            if n not in en.vars:
+                en.vars[n] = v
+                en.declared.add(n)
+        saved = ctx.ret_k
+
+        def back(v, e2):
+            s2 = ctx.ret_k
+            ctx.ret_k = saved
+            try:
+                return kk(v, scope_out(env, e2))
+            finally:
+                ctx.ret_k = s2
+
+        def bind(i, e1):
+            if i == len(params):
+                ctx.ret_k = back
+                try:
+                    return tr_expr(body, e1, back)
+                finally:
+                    ctx.ret_k = saved
+            pat = strip_pref(params[i])
+            for nm in pattern_names(pat):
+                e1.declared.add(nm)
+            return bind_pattern(pat, args[i], e1, lambda e2: bind(i + 1, e2))
+        return bind(0, en)
+    return branching(lambda ts: ts[0], [f], env, k, False, hint, inline=inline)
+
+
+def pattern_names(pat):
+    if pat[0] == "bind":
+        return [pat[1]]
+    if pat[0] in ("ptuple", "pslice", "por"):
+        return [n for q in pat[1] for n in pattern_names(q)]
+    if pat[0] == "ptuplestruct":
+        return [n for q in pat[2] for n in pattern_names(q)]
+    if pat[0] == "pref":
+        return pattern_names(pat[1])
+    return []
+
+
+def pure_apply(fval, args, env):
+    """the value of a closure application that must be free of effects (used under a Lean `fun`)"""
+    out = []
+
+    def kb(v, e2):
+        if any(n in e2.vars and e2.vars[n].lean != env.vars[n].lean for n in env.vars):
+            raise Untranslatable("closure with effects in an iterator adaptor")
+        out.append(v)
+        return ""
+    apply_fn(fval, args, env, kb, inline=True)
+    if len(out) != 1:
+        raise Untranslatable("closure with several exits in an iterator adaptor")
+    return out[0]
+
+
+def binder(x, templ):
+    return "(%s : %s)" % (x, templ.ty) if templ is not None and templ.ty else x
+
+
 # ---- loops ------------------------------------------------------------------------------------
 
 def idents(e, acc=None):
@@ -878,12 +1010,20 @@ def tr_for(e, env, k):
     pat, it, body = e[1], e[2], e[3]
     if pat[0] != "bind":
         raise Untranslatable("loop pattern")
-    if R.has_return(body):
-        raise Untranslatable("return inside a loop")
-
     def after_iter(lv, e1):
+        if lv.kind == "array":
+            def unroll(i, e2):
+                if i == len(lv.parts):
+                    return k(UNIT, e2)
+                eb = e2.copy()
+                eb.declared = {pat[1]}
+                eb.vars[pat[1]] = lv.parts[i]
+                return tr_block(body, eb, lambda v, e3: unroll(i + 1, scope_out(e2, e3)))
+            return unroll(0, e1)
         if lv.kind != "list" or lv.inner is None:
             raise Untranslatable("loop over a %s" % lv.kind)
+        if R.has_return(body):
+            raise Untranslatable("return inside a loop")
         elem = ctx.fresh(pat[1])
         snap = ctx.snap()
         rec = []
@@ -975,6 +1115,10 @@ def tr_call(e, env, k, hint=None):
             return k(Val("(some %s)" % par(vs[0].lean), "opt", opt=("some", vs[0]), inner=vs[0]), e1)
         if segs[0] == "Self" and len(segs) == 2:
             return inline_helper(name, None, vs, e1, k)
+        if segs[-1] == "transmute" and len(vs) == 1:
+            return k(vs[0], e1)      # only lifetimes are transmuted in this crate
+        if len(segs) == 1 and name in e1.vars and e1.vars[name].kind in ("closure", "fnpath"):
+            return apply_fn(e1.vars[name], vs, e1, k, hint)
         raise Untranslatable("call of `%s`" % "::".join(segs))
     return tr_args(e[2], env, with_args)
 
@@ -1075,6 +1219,13 @@ def call_translated(fd, vs, argexprs, env, k, hint):
             nn = ctx.fresh(tgt)
             names.append(nn)
             e2.vars[tgt] = env.vars[tgt].like(nn)
+    if fd.uses_memo:
+        if "@memo" not in env.vars:
+            raise Untranslatable("scratch memo used where none is threaded")
+        m1 = ctx.fresh("memo")
+        names.append(m1)
+        e2.vars["@memo"] = env.vars["@memo"].like(m1)
+        args = args + [par(env.vars["@memo"].lean)]
     if fd.uses_store:
         if "@t" not in env.vars:
             raise Untranslatable("store used where none is threaded")
@@ -1099,8 +1250,6 @@ def tr_mcall(e, env, k, hint=None):
     def with_recv(rv, e0):
         def with_args(vs, e1):
             return dispatch(rv, name, vs, args, recv, e1, k, hint)
-        if (rv.kind == "list" and name == "filter") or (rv.kind == "opt" and name == "map"):
-            return with_args([], e0)
         return tr_args(args, e0, with_args)
     return tr_expr(recv, env, with_recv)
 
@@ -1159,26 +1308,62 @@ def dispatch(rv, name, vs, argexprs, recvexpr, env, k, hint):
             e2 = env.copy()
             e2.vars[sname] = rv.like(s1)
             return bind_let([d, s1], "S.decide %s %s" % (rv.lean, par(vs[0].lean)), k(Val(d, "dresval", "DecideResult"), e2))
+    if kind == "array":
+        if name == "map" and n == 1:
+            def go(i, acc, e1):
+                if i == len(rv.parts):
+                    return k(Val("[" + ", ".join(v.lean for v in acc) + "]", "array", parts=acc), e1)
+                return apply_fn(vs[0], [rv.parts[i]], e1, lambda v, e2: go(i + 1, acc + [v], e2), hint)
+            return go(0, [], env)
+        if name == "len" and n == 0:
+            return k(mk("nat", str(len(rv.parts))), env)
     if kind == "list":
-        if name == "filter" and len(argexprs) == 1 and argexprs[0][0] == "closure":
-            ps, body = argexprs[0][1], argexprs[0][2]
-            if len(ps) != 1 or strip_pref(ps[0])[0] != "bind":
-                raise Untranslatable("filter closure parameters")
-            x = ctx.fresh(strip_pref(ps[0])[1])
-            en = env.copy()
-            en.vars[strip_pref(ps[0])[1]] = rv.inner.like(x)
-            out = []
-
-            def kb(v, e2):
-                if v.kind != "bool" or "\n" in v.lean:
-                    raise Untranslatable("filter predicate")
-                out.append(v.lean)
-                return ""
-            tr_expr(body, en, kb)
-            if len(out) != 1:
-                raise Untranslatable("filter predicate with control flow")
-            xb = "(%s : %s)" % (x, rv.inner.ty) if rv.inner.ty else x
-            return k(Val("(List.filter (fun %s => %s) %s)" % (xb, out[0], par(rv.lean)), "list", rv.ty, inner=rv.inner), env)
+        inner = rv.inner
+        if inner is None:
+            raise Untranslatable("list of unknown element type")
+        x = ctx.fresh("x")
+        if name in ("map", "filter", "any", "all", "position", "filter_map", "find") and n == 1:
+            r = pure_apply(vs[0], [inner.like(x)], env)
+            fn = "(fun %s => %s)" % (binder(x, inner), r.lean)
+            if name == "map":
+                return k(Val("(List.map %s %s)" % (fn, par(rv.lean)), "list", "List " + par_ty(r.ty) if r.ty else None, inner=r.like("_")), env)
+            if r.kind not in ("bool", "opt"):
+                raise Untranslatable("predicate of .%s is a %s" % (name, r.kind))
+            if name == "filter":
+                return k(Val("(List.filter %s %s)" % (fn, par(rv.lean)), "list", rv.ty, inner=inner), env)
+            if name == "find":
+                return k(Val("(List.find? %s %s)" % (fn, par(rv.lean)), "opt", inner=inner), env)
+            if name in ("any", "all"):
+                y = "(List.%s %s %s)" % (name, par(rv.lean), fn)
+                return k(mk("bool", y), env)
+            if name == "position":
+                return k(Val("(List.findIdx? %s %s)" % (fn, par(rv.lean)), "opt", inner=mk("nat", "_")), env)
+            if name == "filter_map" and r.kind == "opt" and r.inner is not None:
+                return k(Val("(List.filterMap %s %s)" % (fn, par(rv.lean)), "list", "List " + par_ty(r.inner.ty) if r.inner.ty else None, inner=r.inner), env)
+        if name == "fold" and n == 2:
+            acc = ctx.fresh("acc")
+            r = pure_apply(vs[1], [vs[0].like(acc), inner.like(x)], env)
+            return k(vs[0].like("(List.foldl (fun %s %s => %s) %s %s)" % (binder(acc, vs[0]), binder(x, inner), r.lean, par(vs[0].lean), par(rv.lean))), env)
+        if name == "rev" and n == 0:
+            return k(Val("(List.reverse %s)" % par(rv.lean), "list", rv.ty, inner=inner), env)
+        if name in ("take", "skip") and n == 1 and vs[0].kind == "nat":
+            return k(Val("(List.%s %s %s)" % ("take" if name == "take" else "drop", par(vs[0].lean), par(rv.lean)), "list", rv.ty, inner=inner), env)
+        if name in ("collect", "to_vec", "peekable") and n == 0:
+            return k(rv, env)
+        if name in ("count", "len") and n == 0:
+            return k(mk("nat", "(List.length %s)" % par(rv.lean)), env)
+        if name == "is_empty" and n == 0:
+            return k(mk("bool", "(List.isEmpty %s)" % par(rv.lean)), env)
+        if name == "enumerate" and n == 0:
+            el = tuple_val([mk("nat", "_"), inner], "_")
+            p_ = ctx.fresh("p")
+            return k(Val("(List.map (fun %s => (%s.2, %s.1)) (List.zipIdx %s))" % (p_, p_, p_, par(rv.lean)), "list",
+                         "List " + par_ty(el.ty) if el.ty else None, inner=el), env)
+        if name == "zip" and n == 1 and vs[0].kind == "list" and vs[0].inner is not None:
+            el = tuple_val([inner, vs[0].inner], "_")
+            return k(Val("(List.zip %s %s)" % (par(rv.lean), par(vs[0].lean)), "list", "List " + par_ty(el.ty) if el.ty else None, inner=el), env)
+        if name == "chain" and n == 1 and vs[0].kind == "list":
+            return k(Val("(%s ++ %s)" % (par(rv.lean), par(vs[0].lean)), "list", rv.ty, inner=inner), env)
     if kind == "cache":
         recv = strip_ref(recvexpr)
         if name == "get" and n == 1:
@@ -1208,13 +1393,27 @@ def dispatch(rv, name, vs, argexprs, recvexpr, env, k, hint):
             return k(mk("bool", x), env)
         if name == "neg" and n == 0:
             return k(mk("ptr", "%s.neg" % par(rv.lean)), env)
+        if name in ("scratch", "set_scratch", "clear_scratch") and ctx.memo_mode:
+            # some function of the file writes the memo: it is an explicit association list
+            if "@memo" not in env.vars:
+                raise Untranslatable("scratch memo used where none is threaded")
+            memo = env.vars["@memo"]
+            keyp = "(Ptr.node false %s %s %s)" % rv.destruct[1:] if rv.destruct else "(scratchKey %s)" % par(rv.lean)
+            if name == "scratch" and n == 0:
+                return k(Val("(scratchGet %s %s)" % (par(memo.lean), keyp), "opt", inner=mk("ptr", "_")), env)
+            if name == "set_scratch" and n == 1 and vs[0].kind == "ptr":
+                m1 = ctx.fresh("memo")
+                e2 = env.copy()
+                e2.vars["@memo"] = memo.like(m1)
+                return bind_let([m1], "(%s, %s) :: %s" % (keyp, vs[0].lean, memo.lean), k(UNIT, e2))
+            if name == "clear_scratch" and n == 0:
+                m1 = ctx.fresh("memo")
+                e2 = env.copy()
+                e2.vars["@memo"] = memo.like(m1)
+                return bind_let([m1], "scratchClear %s %s" % (par(memo.lean), par(rv.lean)), k(UNIT, e2))
         if name == "scratch" and n == 0:
-            if ctx.has_set_scratch:
-                raise Untranslatable("the scratch memo is written (`set_scratch`)")
-            return k(Val("none", "opt", opt=("none",)), env)
+            return k(Val("none", "opt", opt=("none",)), env)     # nobody in the file writes the memo
         if name == "clear_scratch" and n == 0:
-            if ctx.has_set_scratch:
-                raise Untranslatable("the scratch memo is written (`set_scratch`)")
             return k(UNIT, env)
         if name == "var_safe" and n == 0:
             return k(Val("(TieDnnfAux.varSafe %s)" % par(rv.lean), "opt", inner=mk("nat", "_")), env)
@@ -1267,31 +1466,42 @@ def dispatch(rv, name, vs, argexprs, recvexpr, env, k, hint):
                 return bind_let([r, t1], "TieDnnfAux.tblGetOrInsertByHash %s %s %s" % (t.lean, par(vs[0].lean), regular_ptr(vs[1]).lean),
                                 k(mk("noderef", r), e2))
     if kind == "opt":
-        if name == "map" and len(argexprs) == 1:
-            f = argexprs[0]
-            x = ctx.fresh("x")
-            payload = (rv.opt[1] if rv.opt and rv.opt[0] == "some" else rv.inner)
-            if payload is None and not (rv.opt and rv.opt[0] == "none"):
-                raise Untranslatable("map over an Option of unknown payload")
-            if rv.opt and rv.opt[0] == "none":
+        static = rv.opt
+        payload = (static[1] if static and static[0] == "some" else rv.inner)
+        x = ctx.fresh("x")
+        if name in ("map", "and_then") and n == 1:
+            if static and static[0] == "none":
                 return k(rv, env)
-            arg = payload if rv.opt else payload.like(x)
-            out = []
-
-            def kb(v, e2):
-                out.append(v)
-                return ""
-            if f[0] == "path":
-                tr_call(("call", f, [("path", ["__arg"])]), env.copy().set("__arg", arg), kb)
-            elif f[0] == "closure" and len(f[1]) == 1 and strip_pref(f[1][0])[0] == "bind":
-                tr_expr(f[2], env.copy().set(strip_pref(f[1][0])[1], arg), kb)
-            else:
-                raise Untranslatable("argument of Option::map")
-            if len(out) != 1 or "\n" in out[0].lean:
-                raise Untranslatable("Option::map with control flow")
-            if rv.opt:
-                return k(Val("(some %s)" % par(out[0].lean), "opt", opt=("some", out[0]), inner=out[0]), env)
-            return k(Val("(Option.map (fun %s => %s) %s)" % (x, out[0].lean, par(rv.lean)), "opt", inner=out[0].like("_")), env)
+            if payload is None:
+                raise Untranslatable("Option of unknown payload")
+            if static:
+                r = pure_apply(vs[0], [payload], env)
+                if name == "and_then":
+                    return k(r, env)
+                return k(Val("(some %s)" % par(r.lean), "opt", opt=("some", r), inner=r), env)
+            r = pure_apply(vs[0], [payload.like(x)], env)
+            if name == "map":
+                return k(Val("(Option.map (fun %s => %s) %s)" % (binder(x, payload), r.lean, par(rv.lean)), "opt", inner=r.like("_")), env)
+            if r.kind != "opt":
+                raise Untranslatable("and_then with a non-Option closure")
+            return k(Val("(Option.bind %s (fun %s => %s))" % (par(rv.lean), binder(x, payload), r.lean), "opt", inner=r.inner), env)
+        if name == "map_or" and n == 2:
+            if static and static[0] == "none":
+                return k(vs[0], env)
+            if payload is None:
+                raise Untranslatable("Option of unknown payload")
+            if static:
+                return k(pure_apply(vs[1], [payload], env), env)
+            r = pure_apply(vs[1], [payload.like(x)], env)
+            return k(vs[0].like("(Option.elim %s %s (fun %s => %s))" % (par(rv.lean), par(vs[0].lean), binder(x, payload), r.lean)), env)
+        if name == "unwrap_or" and n == 1:
+            if static:
+                return k(vs[0] if static[0] == "none" else static[1], env)
+            return k(vs[0].like("(Option.getD %s %s)" % (par(rv.lean), par(vs[0].lean))), env)
+        if name in ("is_some", "is_none") and n == 0:
+            if static:
+                return k(mk("bool", "true" if (static[0] == "some") == (name == "is_some") else "false"), env)
+            return k(mk("bool", "%s.%s" % (par(rv.lean), "isSome" if name == "is_some" else "isNone")), env)
     raise Untranslatable("method `.%s` (%d arguments) on a %s" % (name, n, kind))
 
 
@@ -1309,6 +1519,7 @@ def translate_fn(unit, fd):
     ctx.fuel_var = None
     body_toks = f["body_text"]
     ctx.has_set_scratch = "set_scratch" in body_toks
+    ctx.memo_mode = getattr(unit, "memo_mode", False)
     env = Env(ctx)
     binders = []
     byref_names = []
@@ -1326,16 +1537,24 @@ def translate_fn(unit, fd):
         ctx.used.add("self_")
         env.vars["self"] = mk("ptr", "self_")
         binders.append("(self_ : Ptr)")
+    if fd.uses_memo:
+        ctx.used.add("memo")
+        env.vars["@memo"] = Val("memo", "memo", "ScratchMemo")
+        binders.append("(memo : ScratchMemo)")
+    elif fd.memo_entry:
+        env.vars["@memo"] = Val("([] : ScratchMemo)", "memo", "ScratchMemo")
     if fd.uses_store:
         ctx.used.add("t")
         env.vars["@t"] = Val("t", "store", fd.store_ty)
         binders.append("(t : %s)" % fd.store_ty)
-    ret_ty = [fd.ret[1]] + [env.vars[n].ty for n in byref_names] + ([fd.store_ty] if fd.uses_store else [])
+    ret_ty = [fd.ret[1]] + [env.vars[n].ty for n in byref_names] + (["ScratchMemo"] if fd.uses_memo else []) + \
+        ([fd.store_ty] if fd.uses_store else [])
 
     def ret_k(v, e2):
         if v.kind is not None and v.kind != fd.ret[0] and not (fd.ret[0] == "ptr" and v.kind == "noderef"):
             raise Untranslatable("function result is a %s" % v.kind)
-        comps = [v.lean] + [e2.vars[n].lean for n in byref_names] + ([e2.vars["@t"].lean] if fd.uses_store else [])
+        comps = [v.lean] + [e2.vars[n].lean for n in byref_names] + ([e2.vars["@memo"].lean] if fd.uses_memo else []) + \
+            ([e2.vars["@t"].lean] if fd.uses_store else [])
         return tuple_text(comps)
     ctx.ret_k = ret_k
     if fd.recursion and fd.recursion[0] == "structural":
@@ -1402,6 +1621,16 @@ def prepare(unit):
             errors[fd.rust] = str(e)
             fd.parsed = None
             fd.params = None
+    # the scratch memo: modelled explicitly (an association list keyed by the regular pointer to the node,
+    # threaded like the store) as soon as some function of the unit WRITES it
+    unit.memo_mode = any(fd.parsed is not None and "set_scratch" in fd.parsed["body_text"] for fd in unit.fds.values())
+    for fd in unit.fds.values():
+        txt = fd.parsed["body_text"] if fd.parsed is not None else ""
+        fd.uses_memo = unit.memo_mode and (". scratch" in txt or "set_scratch" in txt)
+    for fd in unit.fds.values():
+        txt = fd.parsed["body_text"] if fd.parsed is not None else ""
+        callees = set(re.findall(r"self \. ([a-z_]+) \(", txt))
+        fd.memo_entry = unit.memo_mode and not fd.uses_memo and any(c in unit.fds and unit.fds[c].uses_memo for c in callees)
     # store usage: fixpoint over the call graph of the translated functions
     changed = True
     for fd in unit.fds.values():
@@ -1495,13 +1724,22 @@ def write_if_changed(path, text):
         open(path, "w").write(text)
 
 
-def main():
+def generate(bad):
+    """one pass; `bad`: {status key: reason} of the functions that must fall back (elaboration guard).
+    -> (text, status, [(status key, first line, last line)] of the translated blocks)"""
     status = {}
+    marks = []   # (key, index into parts)
     parts = ["import RsddModel.Model.TopDown\nimport RsddModel.Lemmas.TieDnnfAux\n"
              "/-!\n# Generated by tools/gen_dnnf.py from the Rust source — do not edit\n\n"
              "The decision-DNNF builder (`src/builder/decision_nnf/{builder,standard,semantic}.rs`), function by\n"
              "function; compared with the hand-written model `TopDown` in `Props/TieDnnf.lean`.\n-/\n"
-             "set_option linter.unusedVariables false\nnamespace Gen.TopDown\nopen Spec Bdd _root_.TopDown\n"]
+             "set_option linter.unusedVariables false\nnamespace Gen.TopDown\nopen Spec Bdd _root_.TopDown\n\n"
+             "/-! the scratch memo, used only when some function of the source WRITES it (`set_scratch`): an association\n"
+             "list keyed by the regular pointer to the node, most recent first; `clear_scratch` from the root drops it -/\n"
+             "abbrev ScratchMemo := List (Ptr × Ptr)\n"
+             "def scratchKey : Ptr → Ptr\n  | .node _ v lo hi => .node false v lo hi\n  | p => p\n"
+             "def scratchGet (m : ScratchMemo) (k : Ptr) : Option Ptr :=\n  match m.find? (fun e => e.1 == k) with\n  | some e => some e.2\n  | none => none\n"
+             "def scratchClear (m : ScratchMemo) (_root : Ptr) : ScratchMemo := []\n"]
     for path, fds in descriptors():
         key = lambda fd: "%s::%s" % (os.path.basename(path)[:-3], fd.rust)
         try:
@@ -1516,6 +1754,9 @@ def main():
             continue
         results = {}
         for fd in fds:
+            if key(fd) in bad:
+                results[fd.rust] = ("err", bad[key(fd)])
+                continue
             if fd.rust in errors:
                 results[fd.rust] = ("err", errors[fd.rust])
                 continue
@@ -1526,8 +1767,7 @@ def main():
                 results[fd.rust] = ("err", str(e))
             except Exception as e:  # never crash
                 results[fd.rust] = ("err", "internal translator error: %s: %s" % (type(e).__name__, e))
-        # a translated function that calls an untranslated one calls its alias (fixed ghosts): fine.
-        # ghost parameters: the callee's ghosts are also the caller's
+        # ghost parameters: the callee's ghosts are also the caller's (an untranslated callee is its alias, fixed ghosts)
         ghosts_of = {}
         for fd in fds:
             ghosts_of[fd.rust] = set(results[fd.rust][2]) if results[fd.rust][0] == "ok" else set(fd.ghosts)
@@ -1537,7 +1777,7 @@ def main():
             for fd in fds:
                 if results[fd.rust][0] != "ok":
                     continue
-                for callee in re.findall(r"«GA:([a-z_]+)»", results[fd.rust][1]):
+                for callee in re.findall(r"«GA:([a-z_]+)»", results[fd.rust][1] + "".join(at for _, at in results[fd.rust][3])):
                     if not ghosts_of[callee] <= ghosts_of[fd.rust]:
                         ghosts_of[fd.rust] |= ghosts_of[callee]
                         changed = True
@@ -1564,17 +1804,70 @@ def main():
                 for an, at in fd.aux_fallback.items():
                     if an not in [x for x, _ in res[3]]:
                         parts.append("-- (no loop in the source of `%s`: `%s` is an alias of the model's)\n%s\n" % (fd.rust, an, at))
+                marks.append((key(fd), len(parts)))
                 parts.append("/-- `%s` (%s) -/\n%s" % (fd.rust, path, text))
                 status[key(fd)] = "translated" + (" (recursion is not on the children of the matched pointer: emitted as an opaque `partial def`, the tie fails)" if res[4] else "")
             else:
                 why = res[1].replace("\n", " ")
-                parts.append("-- TRANSLATOR ROUTE NOT AVAILABLE for `%s` (the source left the translator's grammar: %s):\n"
+                parts.append("-- TRANSLATOR ROUTE NOT AVAILABLE for `%s` (%s):\n"
                              "-- alias of the hand-written model; tied by the correspondence streams only\n" % (fd.rust, why))
                 parts.extend(x + "\n" for x in fd.aux_fallback.values())
                 parts.append(fd.fallback + "\n")
                 status[key(fd)] = UNTR % why
     parts.append("end Gen.TopDown\n")
-    write_if_changed(OUT, "\n".join(parts))
+    blocks = []
+    for k_, idx in marks:
+        first = sum(p_.count("\n") + 1 for p_ in parts[:idx]) + 1
+        blocks.append((k_, first, first + parts[idx].count("\n")))
+    return "\n".join(parts), status, blocks
+
+
+def elaboration_errors(text):
+    """ELABORATION GUARD: elaborate the candidate text once (`lake env lean`, no output files).
+    -> {line: message} of the errors, or None when lean could not be run at all"""
+    import subprocess, tempfile
+    lean_dir = os.path.join(ROOT, "lean")
+    tmp = os.path.join(lean_dir, "RsddModel", "Model", ".GenDnnf.candidate.lean")
+    try:
+        open(tmp, "w").write(text)
+        pr = subprocess.run(["lake", "env", "lean", tmp], cwd=lean_dir, stdout=subprocess.PIPE, stderr=subprocess.STDOUT,
+                            text=True, timeout=600)
+    except Exception:
+        return None
+    finally:
+        try:
+            os.remove(tmp)
+        except OSError:
+            pass
+    errs = {}
+    for m in re.finditer(r"candidate\.lean:(\d+):\d+: error:?\s*([^\n]*)", pr.stdout):
+        errs.setdefault(int(m.group(1)), m.group(2).strip())
+    if pr.returncode != 0 and not errs:
+        return None
+    return errs
+
+
+def main():
+    """translate; when the text differs from the file on disk, elaborate it once and let every
+    definition with an elaboration error fall back to its alias (repeat until clean)"""
+    bad = {}
+    old = open(OUT).read() if os.path.exists(OUT) else None
+    for _ in range(8):
+        text, status, blocks = generate(bad)
+        if text == old or os.environ.get("GEN_DNNF_NO_GUARD"):
+            break
+        errs = elaboration_errors(text)
+        if errs is None:
+            break      # lean not runnable here: nothing can be built anyway
+        new_bad = {}
+        for line, msg in sorted(errs.items()):
+            for k_, a, b in blocks:
+                if a <= line <= b and k_ not in new_bad:
+                    new_bad[k_] = "the translation does not elaborate (line %d of the candidate: %s)" % (line - a + 1, msg[:120])
+        if not new_bad:
+            break      # clean, or errors outside the generated definitions (imports): not the translator's business
+        bad.update(new_bad)
+    write_if_changed(OUT, text)
     return status
 
 
